@@ -80,12 +80,14 @@ pub struct Rig {
     pub server: Server<Arc<ScriptFs>>,
     pub dev: FuseDev,
     pub virt: Virtio,
+    /// C02: the scripted filesystem answers the next request with this error
+    pub fail: Option<crate::scriptfs::Fail>,
 }
 
 impl Rig {
     pub fn new() -> Rig {
         let fs = Arc::new(ScriptFs::new());
-        Rig { server: Server::new(fs.clone()), fs, dev: FuseDev::new(), virt: Virtio::new(1, 6 << 20, 3 << 20) }
+        Rig { server: Server::new(fs.clone()), fs, dev: FuseDev::new(), virt: Virtio::new(1, 6 << 20, 3 << 20), fail: None }
     }
     pub fn fresh_server(&mut self) {
         self.server = Server::new(self.fs.clone());
@@ -259,6 +261,7 @@ fn c02_check(rig: &mut Rig, rep: &mut Report, c: &Case, tr: &Tr, devs: &[(String
     if matches!(c.op, k::FUSE_READ) {
         ans.data = vec![7u8; 8];
     }
+    ans.fail = rig.fail.clone();
     let (ex, log) = rig.run(&bytes, tr, ans);
     rep.transitions += 1;
     let cap = tr.capacity();
@@ -367,6 +370,27 @@ pub fn c02(args: &Args) -> Report {
             }
         }
         max_dev = max_dev.max(2);
+    }
+    // the filesystem answers with an error: still exactly one call per request (an error, EINTR and EAGAIN included, is
+    // an answer; the server must not ask again with a reader it has already handed out)
+    {
+        use crate::scriptfs::Fail;
+        for fail in [Fail::Errno(libc::EINTR), Fail::Errno(libc::EAGAIN), Fail::Errno(libc::ENOSYS), Fail::Kind(std::io::ErrorKind::Interrupted), Fail::Kind(std::io::ErrorKind::WouldBlock), Fail::Kind(std::io::ErrorKind::Other)] {
+            for &op in ops::ALL_OPS {
+                if op == k::FUSE_INIT {
+                    continue;
+                }
+                let base = ops::base_case(op);
+                for tr in [Tr::Chan, Tr::Virt { cuts: vec![40], wr: vec![16, 8192], gap: 8, wr_in_b: true, cache: true }] {
+                    if rep.mine(idx) {
+                        rig.fail = Some(fail.clone());
+                        c02_check(&mut rig, &mut rep, &base, &tr, &[(format!("filesystem-answers-{:?}", fail), 0)]);
+                        rig.fail = None;
+                    }
+                    idx += 1;
+                }
+            }
+        }
     }
     // negotiated versions: the decoder must not depend on the minor a client negotiated, for every minor whose
     // request layouts are the current ones (7.12 on: fuse_mknod_in got its umask field in 7.12, fuse_write_in
